@@ -123,6 +123,28 @@ def long_lived_options(ctx, hist):
                                 "custom type was registered", "msg": j, "decoded": C.msg_to_json(back), "hex": data.hex(), "registered": sorted(registered)})
                 if len(out) >= 5:
                     return out
+        # every custom type with values around the short / long length forms (its identifier has two octets: tag number 31)
+        if rounds < 2:
+            for n in (0, 1, 126, 127, 128, 129, 255, 256, 300, 65535, 65536):
+                v = C.tx("v" * n)
+                for j in ({"id": 1, "op": {"k": "bindReq", "version": 3, "name": C.tx(""), "cred": {"k": "custom", "v": v}}, "controls": []},
+                          {"id": 2, "op": {"k": "searchReq", "base": C.tx(""), "scope": 0, "deref": 0, "size": 0, "time": 0, "typesOnly": False,
+                                           "filter": {"k": "and", "fs": [{"k": "present", "a": C.tx("cn")}, {"k": "custom", "v": v}]}, "attrs": []}, "controls": []},
+                          {"id": 3, "op": {"k": "unbind"}, "controls": [{"k": "custom", "crit": True, "data": ("ab" * n), "raw": None}]}):
+                    hist["long-lived-options:custom-size"] += 1
+                    m = C.msg_from_json(j)
+                    data = m.pack(opts)
+                    r = ASN1Reader(data + b"\x30\x03")
+                    try:
+                        back = M.unpack_ldap_message(r, opts)
+                        rest = r.get_remaining_data()
+                    except BaseException as e:  # noqa: BLE001
+                        out.append({"key": None, "what": f"decoding the library's own encoding of a message with a custom type of {n} value octets raised "
+                                    f"{type(e).__name__}", "value_octets": n, "kind": j["op"]["k"], "hex": data[:80].hex()})
+                        continue
+                    if strip_raw(C.msg_to_json(back)) != strip_raw(j) or rest != b"\x30\x03":
+                        out.append({"key": None, "what": "decode(encode(m)) differs from m (or consumes too much) for a message with a custom type",
+                                    "value_octets": n, "kind": j["op"]["k"], "hex": data[:80].hex()})
     return out
 
 
